@@ -60,7 +60,9 @@ YANG_A = '''module a { yang-version 1.1; namespace "urn:a"; prefix a;
   leaf-list tll { type string; ordered-by user; }
   list top { key id; leaf id { type string; } leaf val { type int32; }
     container tc { leaf z { type string; } leaf sel { type string; }
-      list e { key k; leaf k { type string; } leaf v { type string; } } } }
+      list e { key k; leaf k { type string; } leaf v { type string; } } }
+    leaf gsel { type string; }
+    list g { key k; leaf k { type string; } leaf v { type int32; } } }
 }'''
 YANG_B = '''module b { yang-version 1.1; namespace "urn:b"; prefix b; import a { prefix a; }
   augment /a:c { leaf s { type string; } leaf bx { type string; }
@@ -183,6 +185,12 @@ class Inst:
                 for ek in eks:
                     tc.append(("a", "e", [("a", "k", ek)] + ([("a", "v", rng.choice(STR_POOL))] if r() < 0.5 else [])))
                 ch.append(("a", "tc", tc))
+            # a list directly in a list: [k=../gsel] must take gsel of the own parent instance
+            gks = rng.sample(KEY_POOL[:8], rng.choice([0, 0, 1, 2, 3, 4]))
+            if r() < 0.8:
+                ch.append(("a", "gsel", rng.choice(gks) if gks and r() < 0.85 else rng.choice(KEY_POOL)))
+            for gk in gks:
+                ch.append(("a", "g", [("a", "k", gk)] + ([("a", "v", str(rng.choice(INT_POOL)))] if r() < 0.8 else [])))
             self.x.append(("a", "top", ch))
         # the last top-level node: a leaf (b:tl) provokes the get_node_pos() restart crash, a container with a child
         # (b:bt/q) does not
@@ -893,6 +901,9 @@ FIXED_EXPRS = [
     "/a:c/a:l1[a:k=/a:c/a:zz]", "/a:c/a:l1[a:k=/a:zz]", "/a:c/a:lu[a:k=/a:c/b:bc/b:s]", "/a:c/a:lu[a:k=string(/a:c/b:bc/b:s)]", "/a:c/a:lu[a:k=/a:c/a:n]",
     "/a:c/a:l2[a:k1='5'][a:k2=/a:c/b:bc/b:s]", "/a:c/a:l2[a:k1=/a:c/a:n][a:k2=/a:c/a:n]", "/a:c/a:l1[a:k='']", "/a:c/a:l1[a:k=a:ca]", "/a:c/a:l1[a:k=a:cb]", "/a:c/a:l1[a:k=a:ca | a:cb]",
     "/a:top/a:tc/a:e[a:k=../a:sel]", "/a:top/a:tc/a:e[a:k=../../a:id]", "//a:e[a:k=../a:sel]", "/a:top/a:tc/a:e[a:k=/a:tl]", "/a:top/a:tc/a:e[a:k='x']",
+    "/a:top/a:g[a:k=../a:gsel]/a:v", "/a:top/a:g[a:k = ../a:gsel]", "sum(/a:top/a:g[a:k=../a:gsel]/a:v)", "count(/a:top/a:g[a:k=../a:gsel][a:v mod 2 = 1])",
+    "/a:top[a:id != '5']/a:g[a:k=../a:gsel]/a:v", "/a:top[2]/a:g[a:k=../a:gsel]/a:v", "/a:top/a:g[../a:gsel = a:k]/a:v", "/a:top/a:g[a:k=../a:id]",
+    "/a:top/a:g[a:k=../a:gsel][a:v > 0]/a:v", "//a:g[a:k=../a:gsel]", "/a:top/a:g[a:k=parent::a:top/a:gsel]/a:v", "/a:top/a:g[a:k=parent::*/a:gsel]",
     "/a:c/a:l1[a:k=current()/../a:s]", "/a:c/a:l1[a:k=/a:c/a:s]", "/a:c/a:l1[a:k=/a:c/a:ll]", "/a:c/a:l1[a:k=/a:c/a:ll[3]]", "/a:c/a:l1[a:k=string(/a:c/a:zz)]",
     "/a:c/s", "/a:c/bx", "/a:c/descendant::s", "/tl", "/c/s", "/a:c/l1/k", "/a:c/a:l1/v", "//s", "//v", "/a:c/b:bc/s", "/c/l1[k='a']",
 ]
@@ -910,6 +921,7 @@ KEY_DEP = ["/a:c/a:l1[a:k=a:w]", "/a:c/a:l1[a:k=a:in/a:x]", "/a:c/a:l1[a:k=a:t]"
            "/a:c/a:l1[a:k=/a:c/a:zz]", "/a:c/a:l1[a:k=/a:zz]", "/a:c/a:l1[a:k=../a:zz]", "/a:top[a:id=/a:c/a:zz]", "/a:c/a:l1[a:k=/a:c/a:s]",
            "/a:c/a:l1[a:k=a:ca]", "/a:c/a:l1[a:k=a:cb]", "/a:c/a:l1[a:k=a:ca or a:k=a:cb]", "/a:c/a:l1[a:k=a:ca | a:cb]",
            "/a:top/a:tc/a:e[a:k=../a:sel]", "/a:top/a:tc/a:e[a:k=../../a:id]", "/a:top/a:tc/a:e[a:k=../a:z]", "//a:e[a:k=../a:sel]",
+           "/a:top/a:g[a:k=../a:gsel]/a:v", "/a:top/a:g[a:k=../a:gsel]", "/a:top/a:g[a:k=../a:id]", "sum(/a:top/a:g[a:k=../a:gsel]/a:v)", "/a:top/a:g[a:k=parent::*/a:gsel]",
            "/a:top/a:tc/a:e[a:k=/a:tl]", "/a:top/a:tc/a:e[a:k=current()]", "/a:c/a:l1[a:k=current()/../a:s]", "/a:c/a:l1[a:k=current()/a:k]",
            "/a:top[a:id=current()/../a:id]", "/a:c/a:l1[a:k=string(/a:c/a:zz)]", "/a:c/a:l1[a:k=string(../a:s)]", "/a:c/a:l1[a:k=/a:c/a:ll]",
            "/a:c/a:l1[a:k=/a:c/a:ll[1]]", "/a:c/a:l2[a:k1=/a:c/a:zz][a:k2=1]", "/a:c/a:l2[a:k1='a'][a:k2=/a:c/a:zz]"]
@@ -1137,115 +1149,6 @@ def fixed_switches():
     return _FIXED_SWITCHES
 
 
-FASTPATH_TAGS = ("xpath-fastpath-context-dependent-rhs", "xpath-fastpath-nodeset-rhs-as-string")
-_FASTPATH_OPEN = None
-
-
-def fastpath_open():
-    """the listed defects of the key-predicate hash lookup that the tree under test still shows: the replay of the
-    known finding does NOT answer what the reference semantics expects. Only those are used to explain a result that
-    neither the recommendation nor the as-coded flags give (the lookup needs the schema and is not part of the model);
-    once the lookup is repaired every such result is a violation again."""
-    global _FASTPATH_OPEN
-    if _FASTPATH_OPEN is not None:
-        return _FASTPATH_OPEN
-    import json
-    path = os.path.join(vlib.VERIF, "known_findings.d", "xpath.json")
-    ents = [k for k in json.load(open(path)) if k.get("status") == "known" and k.get("tag") in FASTPATH_TAGS and "replay" in k]
-    exe = vlib.build_driver("t_xpath", "rel")
-    outs, _ = vlib.run_cases(exe, [k["replay"]["line"] for k in ents], timeout=120)
-    op = set()
-    for k, o in zip(ents, outs):
-        o = o[:-5] if o.endswith(" A:ok") else o
-        if o != k["witness"]["expected (XPath 1.0 reference semantics)"]:
-            op.add(k["tag"])
-    _FASTPATH_OPEN = op
-    return op
-
-
-IMPLICIT_CTX_FUNCS = ("string", "number", "name", "local-name", "namespace-uri", "normalize-space", "string-length")
-
-
-def uses_ctx(e):
-    """does the expression refer to its context node outside of predicates (which have their own)?"""
-    k = e[0]
-    if k == "ctx":
-        return True
-    if k == "step":
-        return uses_ctx(e[1])
-    if k == "filter":
-        return uses_ctx(e[1])
-    if k in ("or", "and", "union"):
-        return uses_ctx(e[1]) or uses_ctx(e[2])
-    if k in ("cmp", "ar"):
-        return uses_ctx(e[2]) or uses_ctx(e[3])
-    if k == "neg":
-        return uses_ctx(e[1])
-    if k == "fn":
-        if e[1] == "lang" or (not e[2] and e[1] in IMPLICIT_CTX_FUNCS):
-            return True
-        return any(uses_ctx(a) for a in e[2])
-    return False
-
-
-def lookup_values(e, out):
-    """value expressions of the predicates [name=value] / [.=value] that directly follow a name test: what the hash
-    lookup of eval_name_test_try_compile_predicates() evaluates once instead of once per instance"""
-    if not isinstance(e, (tuple, list)):
-        return out
-    if e and e[0] == "step" and e[4][0] == "name":
-        for p in e[5]:                                    # one predicate per key
-            if p[0] == "cmp" and p[1] == "=" and p[2][0] == "step" and p[2][1] == ("ctx",) and not p[2][2] and not p[2][5] and \
-                    ((p[2][3] == "child" and p[2][4][0] == "name") or (p[2][3] == "self" and p[2][4][0] == "any")):
-                out.append(p[3])
-            else:
-                break
-    for x in e:
-        lookup_values(x, out)
-    return out
-
-
-def plain_path(e):
-    """location path (or union of them) from the context node, the root or current(), steps without predicates and
-    without the axes in document order of siblings: the values for which the listed defects of the lookup are known"""
-    k = e[0]
-    if k in ("ctx", "root"):
-        return True
-    if k == "fn":
-        return e[1] == "current" and not e[2]
-    if k == "union":
-        return plain_path(e[1]) and plain_path(e[2])
-    if k == "step":
-        return not e[5] and e[3] not in ("following", "following-sibling", "preceding", "preceding-sibling") and plain_path(e[1])
-    return False
-
-
-def plain_value(e):
-    """plain paths, literals and function calls on them (not position() / last(): repaired in a599f2f)"""
-    if e[0] in ("lit", "num"):
-        return True
-    if e[0] == "fn" and e[1] not in ("position", "last", "current"):
-        return all(plain_value(a) for a in e[2])
-    return plain_path(e)
-
-
-def fastpath_tag(text):
-    """which listed defect of the hash lookup can explain a deviating answer of this expression: a key predicate whose
-    value is a plain location path, relative to the list instance (xpath-fastpath-context-dependent-rhs) or not
-    (xpath-fastpath-nodeset-rhs-as-string)"""
-    try:
-        vals = lookup_values(parse(text), [])
-    except Exception:
-        return None
-    op = fastpath_open()
-    vals = [v for v in vals if plain_value(v) and v[0] not in ("lit", "num")]
-    if any(uses_ctx(v) for v in vals) and FASTPATH_TAGS[0] in op:
-        return FASTPATH_TAGS[0]
-    if any(not uses_ctx(v) for v in vals) and FASTPATH_TAGS[1] in op:
-        return FASTPATH_TAGS[1]
-    return None
-
-
 FIXED_XML = ('<c xmlns="urn:a"><s>hello</s><n>5</n><d>2.50</d><u>12</u><ll>x</ll><ll>y</ll><ll>5.0</ll><ll>5</ll><ln>7</ln><ln>3</ln>'
              '<l1><k>5.0</k><v>1</v><in><x>q</x></in><t>t1</t><t>t2</t></l1><l1><k>b</k><v>2</v></l1>'
              '<l1><k>c</k><v>3</v><w>c</w><in><x>r</x><y>9</y></in><t>u</t></l1><l1><k>1e3</k><in><x>1e3</x></in></l1><l1><k>2</k><v xmlns="urn:b">bv</v></l1>'
@@ -1253,7 +1156,10 @@ FIXED_XML = ('<c xmlns="urn:a"><s>hello</s><n>5</n><d>2.50</d><u>12</u><ll>x</ll
              '<l2><k1>a</k1><k2>1</k2><v>v1</v></l2><l2><k1>a</k1><k2>2</k2><v>v2</v></l2><l2><k1>5</k1><k2>5</k2></l2>'
              '<lu><k>5</k><v>2.5</v></lu><lu><k>1</k></lu><lu><k>12</k><v>12.0</v></lu><lu><k>3</k><v>0.5</v></lu>'
              '<s xmlns="urn:b">bs</s><bx xmlns="urn:b">BX</bx><bc xmlns="urn:b"><s>+5</s><m>4</m></bc>'
-             '</c><tl xmlns="urn:a">atl</tl><top xmlns="urn:a"><id>5</id><val>10</val><tc><sel>x</sel><e><k>x</k></e><e><k>y</k><v>1</v></e></tc></top><top xmlns="urn:a"><id>true</id><val>-3</val><tc><z>Z</z><sel>y</sel><e><k>x</k></e><e><k>y</k></e><e><k></k></e></tc></top>'
+             '</c><tl xmlns="urn:a">atl</tl><top xmlns="urn:a"><id>5</id><val>10</val><tc><sel>x</sel><e><k>x</k></e><e><k>y</k><v>1</v></e></tc><gsel>a</gsel><g><k>a</k><v>1</v></g><g><k>b</k><v>2</v></g><g><k>c</k><v>3</v></g></top>'
+             '<top xmlns="urn:a"><id>true</id><val>-3</val><tc><z>Z</z><sel>y</sel><e><k>x</k></e><e><k>y</k></e><e><k></k></e></tc>'
+             '<gsel>b</gsel><g><k>a</k><v>4</v></g><g><k>b</k><v>5</v></g><g><k>c</k><v>6</v></g></top>'
+             '<top xmlns="urn:a"><id>b</id><gsel>c</gsel><g><k>a</k><v>7</v></g><g><k>b</k><v>8</v></g><g><k>c</k><v>9</v></g></top>'
              '%s')
 FIXED_TAILS = ['<bt xmlns="urn:b"><q>Q</q></bt>', '<tl xmlns="urn:b">btl</tl>']
 
@@ -1352,21 +1258,16 @@ class XPathEval(Comp):
                     self.reported.add(tg)
                     return (tg, detail + " [as coded: " + need + "]")
             return (tags[0], detail + " [as coded: " + need + "]")
-        # the hash lookup of key predicates is not part of the model (it needs the schema): while the replay of its
-        # listed defects still reproduces, a deviating answer of an expression with such a predicate is attributed
-        tg = fastpath_tag(expr)
-        if tg:
-            return (tg, detail)
+        # (the hash lookup of key predicates is not part of the model: it has to agree with generic evaluation)
         return (None, detail + " [as-coded model: %s]" % coded[:200])
 
 
 class XPathS2N(Comp):
-    """cast_string_to_number() vs XPathConv.spec_s2n at 64 bits (the recommendation); an answer that is the one of
-    XPathConv.impl_s2n (strtold as coded) is the known finding xpath-string-to-number, any other one a violation"""
+    """cast_string_to_number() vs XPathConv.spec_s2n at 64 bits (the recommendation; XPathConv.impl_s2n, the code since
+    /repo b906576, is proved equal to it); any other answer is a violation"""
     name = "xps2n"
     driver = "t_xpath"
     slice = "xpath"
-    tag = "xpath-string-to-number"
     what = "number()"
 
     def norm(self, line, out):
@@ -1376,8 +1277,6 @@ class XPathS2N(Comp):
         parts = model_out.split("|")
         text = unhex(line.split("\t")[2]).decode("utf-8", "replace")
         detail = "%s of %r: libyang answers %s, XPath 1.0 (at the precision of the code) gives %s" % (self.what, text, impl_out, parts[0])
-        if len(parts) == 2 and impl_out == parts[1]:
-            return (self.tag, detail + " [as coded]")
         return (None, detail + " [as-coded model: %s]" % parts[-1])
 
     TOK = ["", " ", "\t", "\n", "\r", "\x0b", "\x0c", "-", "+", "0", "1", "5", "9", "12", ".", "e", "E", "e+", "e-", "x", "0x", "0X", "p",
@@ -1401,13 +1300,12 @@ class XPathS2N(Comp):
 
 
 class XPathN2S(Comp):
-    """lyxp_set_cast(number -> string) vs XPathConv.spec_n2s at 64 bits (value given as decimal text, read by strtold);
-    an answer that is the one of XPathConv.impl_n2s (one fraction digit, as coded) is the known finding
-    xpath-number-to-string, any other one a violation"""
+    """lyxp_set_cast(number -> string) vs XPathConv.spec_n2s at 64 bits (value given as decimal text, read by strtold;
+    XPathConv.impl_n2s, the code since /repo 54bf5db, is proved equal to it on long doubles); any other answer is a
+    violation"""
     name = "xpn2s"
     driver = "t_xpath"
     slice = "xpath"
-    tag = "xpath-number-to-string"
     what = "string()"
 
     def norm(self, line, out):
@@ -1417,8 +1315,6 @@ class XPathN2S(Comp):
         parts = model_out.split("|")
         text = unhex(line.split("\t")[2]).decode("utf-8", "replace")
         detail = "%s of %r: libyang answers %s, XPath 1.0 (at the precision of the code) gives %s" % (self.what, text, impl_out, parts[0])
-        if len(parts) == 2 and impl_out == parts[1]:
-            return (self.tag, detail + " [as coded]")
         return (None, detail + " [as-coded model: %s]" % parts[-1])
 
     def gen(self, rng, tier, scale=1.0):
@@ -1428,7 +1324,7 @@ class XPathN2S(Comp):
                  "-9223372036854775809", "12345678901234567890", "1e19", "1e18", "0.5", "1.5", "2.5", "0.15", "0.25", "1e-3",
                  "inf", "-inf", "nan", "1e30", "4.35", "7.0", "1e2", "0.1", "100.05"]
         for s in fixed:
-            L.append("xpk\tn2s\t" + hexs(s))
+            L.append("xpk\tn2s\t" + hexs(self.plain(s)))
         for _ in range(self.n(tier, 1200, 50000, scale)):
             k = rng.randrange(4)
             if k == 0:
@@ -1439,8 +1335,16 @@ class XPathN2S(Comp):
                 s = "%s%de%d" % (rng.choice(["", "-"]), rng.randrange(1, 99999), rng.randrange(-6, 22))
             else:
                 s = "%s%d" % (rng.choice(["", "-"]), rng.randrange(0, 2 ** rng.randrange(1, 70)))
-            L.append("xpk\tn2s\t" + hexs(s))
+            L.append("xpk\tn2s\t" + hexs(self.plain(s)))
         return L
+
+    @staticmethod
+    def plain(s):
+        """the value as a decimal constant without exponent (what the model of the number syntax reads)"""
+        if s in ("inf", "-inf", "nan"):
+            return s
+        import decimal
+        return format(decimal.Decimal(s), "f")
 
 
 # ------------------------------------------------------------------------------------------------
@@ -1497,7 +1401,7 @@ class XPathFastPair:
                 # the list instance (children, also under a choice; the parent) - "or false()" forces generic evaluation
                 if len(kv) == 1:
                     vals = ["/a:c/a:zz", "/a:c/a:s", "/a:c/a:ll", "/a:top/a:id", "../a:s", "../a:sel", "../a:ll", "a:ca", "a:cb", "a:ca | a:cb",
-                            "a:v", "a:w", "a:in/a:x", "current()/a:tl", "string(a:ca)", "//a:sel"]
+                            "a:v", "a:w", "a:in/a:x", "current()/a:tl", "string(a:ca)", "//a:sel", "../a:gsel", "../a:id", "parent::*/a:gsel", "../a:gsel | ../a:id"]
                     leaves = [m for m in nodes if m.kind in "ft" and all(a.kind == "c" for a in self.chain(m)[:-1])]
                     if leaves:
                         m = rng.choice(leaves)
@@ -1506,7 +1410,12 @@ class XPathFastPair:
                     if sib:
                         m = rng.choice(sib)
                         vals.append("%s:%s" % (m.mod, m.name))
-                    for v in rng.sample(vals, 3):
+                    pick = rng.sample(vals, 3)
+                    if n.parent is not None:
+                        # leaves next to the list: their value differs per instance of the parent
+                        up = [m for m in n.parent.children if m.kind == "f"]
+                        pick += ["../%s:%s" % (m.mod, m.name) for m in rng.sample(up, min(2, len(up)))]
+                    for v in pick:
                         fast = path + "[%s:%s=%s]" % (c.mod, k, v)
                         slow = path + "[%s:%s=%s or false()]" % (c.mod, k, v)
                         L.append("xp2\t%s\t%s\t%s\t%s\t%s" % (y, x, "node", hexs(fast), hexs(slow)))
@@ -1530,9 +1439,9 @@ class XPathFastPair:
         if a == b:
             return None
         detail = "hash fast path %r selects %s, generic %r selects %s" % (unhex(f[4]).decode(), a, unhex(f[5]).decode(), b)
-        # (numbers and booleans used to be looked up as strings: fixed in /repo 434e77e); values that depend on the list
-        # instance or select no node: the listed defects of the lookup, while their replays reproduce
-        return (fastpath_tag(unhex(f[4]).decode()) if f[3] == "node" else None, detail)
+        # (numbers and booleans used to be looked up as strings: fixed in /repo 434e77e; values that depend on the list
+        # instance, select no node or several, or are not canonical for the key type: fixed in /repo 97c7154)
+        return (None, detail)
 
 
 class XPathSan:
